@@ -38,8 +38,16 @@ fn main() {
         };
         let id = v["property"].as_str().unwrap_or("").to_string();
         let section = v["section"].as_str().unwrap_or("").to_string();
-        let case = if v["case"].is_null() && v["bytes_hex"].is_string() { serde_json::json!({"__bytes": v["bytes_hex"]}) } else { v["case"].clone() };
-        let code = rdpcheck::run_property(&id, Tier::Quick, Some((section, case)));
+        let case = if v["case"].is_null() && v["bytes_hex"].is_string() {
+            serde_json::json!({"__bytes": v["bytes_hex"]})
+        } else if v["case"].is_null() && v["enum"].is_object() {
+            serde_json::json!({"__enum": v["enum"]})
+        } else {
+            v["case"].clone()
+        };
+        // enumerations may depend on the tier: a watchdog file records the one it was written under
+        let tier = if v["kind"] == "watchdog" && v["tier"] == "thorough" { Tier::Thorough } else { Tier::Quick };
+        let code = rdpcheck::run_property(&id, tier, Some((section, case)));
         std::process::exit(code);
     }
     let id = args[0].clone();
